@@ -1680,22 +1680,17 @@ Example ex_parse_value : parse ex_w 5 = (mkA [97; 98; 99]%N [(0, mkP [mkS 6 [49%
 Proof. vm_compute. reflexivity. Qed.
 Example ex_parse := parse_alloc ex_f ex_w 5.
 
-Example ex_replace : exists a' n', replace ex_v [98]%N (RStr [120; 121]%N) (-1) 2 = OK (a', n') /\ alloc ex_f 2 a' n'.
-Proof.
-  eexists. eexists. split; [vm_compute; reflexivity|].
-  eapply replace_alloc; [exact ex_v_good| |vm_compute; reflexivity]; intros a Ha; discriminate Ha.
-Qed.
 Example ex_split : exists l, split_sep ex_v [98]%N (-1) false = OK l /\ Forall (good ex_f 2) l /\ length l = 2.
 Proof.
   eexists. split; [vm_compute; reflexivity|]. split; [|reflexivity].
-  eapply split_sep_good; [exact ex_v_good|vm_compute; reflexivity].
+  apply (split_sep_good ex_f 2 ex_v [98]%N (-1) false); [exact ex_v_good|vm_compute; reflexivity].
 Qed.
 Example ex_join : exists c, join_astr [ex_v; getitem_slice ex_v (Some 1%Z) (Some 2%Z); ex_v] = OK c /\ good ex_f 2 c
                             /\ length (base c) = 9.
 Proof.
   eexists. split; [vm_compute; reflexivity|]. split; [|reflexivity].
-  eapply join_astr_good; [|vm_compute; reflexivity].
-  repeat constructor; try exact ex_v_good. apply getitem_slice_good, ex_v_good.
+  apply (join_astr_good ex_f 2 [ex_v; getitem_slice ex_v (Some 1%Z) (Some 2%Z); ex_v]); [|vm_compute; reflexivity].
+  constructor; [exact ex_v_good|constructor; [apply getitem_slice_good, ex_v_good|constructor; [exact ex_v_good|constructor]]].
 Qed.
 Example ex_wf := WFv_wf ex_v ex_v_WFv.
 
